@@ -134,8 +134,19 @@ Fixpoint validate_dedges me now rooms (l : list dedge) : verdict :=
   | n :: tl => match check_del me now rooms (de_kind n) (de_ent n) (de_room n) (de_author n) (de_date n) with
                | VOk => validate_dedges me now rooms tl | v => v end
   end.
-Definition validate_deletion me now rooms (ns : list dnode) (es : list dedge) : verdict :=
+(* DeletionQuery.updated_nodes: the source row of a reference deletion is re-dated and signed
+   again by the caller; it is checked like an update, at `now` *)
+Fixpoint validate_dupd me now rooms (l : list dnode) : verdict :=
+  match l with
+  | [] => VOk
+  | n :: tl => match check_del me now rooms (dn_kind n) (dn_ent n) (dn_room n) (dn_author n) now with
+               | VOk => validate_dupd me now rooms tl | v => v end
+  end.
+Definition validate_deletion me now rooms (ns : list dnode) (es : list dedge) (upd : list dnode) : verdict :=
   match validate_dnodes me now rooms ns with
-  | VOk => validate_dedges me now rooms es
+  | VOk => match validate_dupd me now rooms upd with
+           | VOk => validate_dedges me now rooms es
+           | v => v
+           end
   | v => v
   end.
